@@ -206,6 +206,52 @@ def part_history(args):
     return n, res, {}
 
 
+def part_sequences(args):
+    """every sequence of up to three messages from a 16-letter alphabet (handler kinds x request / fire-and-forget,
+    failing header checks, multicast) to one fresh service object: the verdict on a message never depends on what was
+    received before"""
+    own_sid, own_major, maxlen = args
+    loop = VLoop().install()
+    res = []
+    n = 0
+    try:
+        alphabet = []
+        for method in (1, 2, 3):
+            for mtype in (0x00, 0x01):
+                alphabet.append(((own_sid, method, 0x10 + method, 0x20 + mtype, own_major, mtype, 0, b"ab"), False))
+        alphabet += [((own_sid, 1, 1, 2, own_major, 0x00, 0, b"mc"), True), ((own_sid, 2, 1, 2, own_major, 0x01, 0, b"mc"), True),
+                     ((own_sid, 0x7777, 1, 2, own_major, 0x00, 0, b""), False), ((own_sid ^ 0x0101, 1, 1, 2, own_major, 0x00, 0, b""), False),
+                     ((own_sid, 1, 1, 2, (own_major + 1) & 0xFF, 0x00, 0, b""), False), ((own_sid, 1, 1, 2, own_major, 0x80, 0, b""), False),
+                     ((own_sid, 1, 1, 2, own_major, 0x00, 1, b""), False), ((own_sid, 2, 1, 2, own_major, 0x02, 0, b""), False),
+                     ((own_sid, 1, 3, 4, own_major, 0x01, 0, b"zz"), False), ((own_sid, 3, 3, 4, own_major, 0x01, 0, b""), True)]
+        for ln in range(2, maxlen + 1):
+            for seq in itertools.product(range(len(alphabet)), repeat=ln):
+                s = make(loop, own_sid, own_major)
+                n += 1
+                for pos, li in enumerate(seq):
+                    f, multicast = alphabet[li]
+                    s.transport.sent.clear()
+                    s.calls.clear()
+                    exc = None
+                    try:
+                        s.datagram_received(refcodec.enc_someip(*f), ADDR, multicast)
+                    except Exception as e:  # noqa: BLE001
+                        exc = type(e).__name__
+                    if loop._ready or loop._scheduled:
+                        loop.settle()
+                    bad = judge(s, own_sid, own_major, f, multicast, exc)
+                    for clause, disc, detail in bad:
+                        res.append((clause, "after-history-" + disc, detail + f" (message {pos + 1} of the sequence {seq})",
+                                    dict(own=(own_sid, own_major), sequence=[alphabet[i] for i in seq[:pos + 1]])))
+                    if bad:
+                        break
+                if len(res) > 40:
+                    return n, res, {}
+    finally:
+        loop.dispose()
+    return n, res, {}
+
+
 def part_long(args):
     """one datagram that holds as many requests as fit (16-byte messages up to the UDP payload limit): every one
     gets its own reply, in order"""
@@ -257,6 +303,7 @@ def check(ctx):
     out = core.pmap(part, parts, 1)
     out += core.pmap(part_history, [(own_sid, own_major)], 1)
     out += core.pmap(part_long, [(own_sid, own_major)], 1)
+    out += core.pmap(part_sequences, [(own_sid, own_major, 4 if ctx.thorough else 3)], 1)
     n = sum(o[0] for o in out)
     viols = []
     classes = {}
@@ -288,6 +335,22 @@ def check(ctx):
 def replay(ctx, body):
     case = body["case"]
     own = case["own"]
+    if "sequence" in case:
+        loop = VLoop().install()
+        try:
+            s = make(loop, own[0], own[1])
+            res = []
+            for f, multicast in case["sequence"]:
+                s.transport.sent.clear()
+                s.calls.clear()
+                s.datagram_received(refcodec.enc_someip(*f), ADDR, bool(multicast))
+                loop.settle()
+                res = judge(s, own[0], own[1], tuple(f), bool(multicast), None)
+        finally:
+            loop.dispose()
+        for r in res:
+            print("FAILS (last message of the sequence):", r)
+        return 1 if res else 0
     if "long" in case:
         _, res, _ = part_long((own[0], own[1]))
         res = [r for r in res if r[3]["long"] == case["long"]]
